@@ -26,7 +26,7 @@ Section Term.
 
   (* the bytes a read adds to the key buffer *)
   Definition conv (cm : bool) (c : list Z) : list Z :=
-    if cm then utf8_encode (convert_meta (utf8_decode c)) else c.
+    if cm then conv_read c else c.
 
   Fixpoint iweight (cm : bool) (ins : list input) : nat :=
     match ins with
